@@ -1345,6 +1345,52 @@ Definition pre28 (s : tds) : bool :=
   J_b s && has_table_b T_ATTACHMENTS s && has_table_b T_TABLES s && has_table_b T_COLUMNS s &&
   forallb (fun t => forallb (pair_pre28 s t) (recs T_COLUMNS s)) (recs T_TABLES s).
 
+(* migration 20 *)
+Definition fld_is (P : val -> bool) (c : str) (r : record) : bool := match fld c r with Ok v => P v | Err _ => false end.
+Definition pre20 (s : tds) : bool :=
+  J_b s && has_table_b T_TABLES s && has_table_b T_TABLEVIEWS s && has_table_b T_VIEWS s &&
+  forallb (fld_is is_text (zs "tableId")) (recs T_TABLES s) &&
+  forallb (fun tv => fld_is hashable (zs "tableRef") tv && fld_is hashable (zs "viewRef") tv) (recs T_TABLEVIEWS s) &&
+  forallb (fun v => fld_is is_text (zs "name") v && is_some_rid (fst v)) (recs T_VIEWS s).
+
+(* migrations 3 and 17: a column that gets a ModifyColumn names a table record with a string tableId, has a string
+   colId, and the table's schema has the column; 17 also needs the user table's data column *)
+Definition col_named (s : tds) (c : record) : bool :=
+  match fld (zs "parentId") c with
+  | Ok p => hashable p && match pd_get p (tables_by_id s) with
+                          | Some t => match fld (zs "tableId") t, fld (zs "colId") c with
+                                      | Ok (VStr tn), Ok (VStr cn) => schema_has tn cn s
+                                      | _, _ => false
+                                      end
+                          | None => false
+                          end
+  | Err _ => false
+  end.
+Definition pre3 (s : tds) : bool :=
+  J_b s && has_table_b T_TABLES s && has_table_b T_COLUMNS s &&
+  forallb (fun c => has_fld (zs "type") c && fld_is falsy_or_text (zs "formula") c &&
+                    (if fld_is (fun t => py_eq t (VStr (zs "Derived"))) (zs "type") c || fld_is val_truthy (zs "formula") c
+                     then col_named s c else true)) (recs T_COLUMNS s).
+Definition col_data17 (s : tds) (c : record) : bool :=
+  match fld (zs "parentId") c with
+  | Ok p => match pd_get p (tables_by_id s) with
+            | Some t => match fld (zs "tableId") t, fld (zs "colId") c with
+                        | Ok (VStr tn), Ok (VStr cn) =>
+                            match lookup tn (t_data s) with Some td => has cn (snd td) | None => false end
+                        | _, _ => false
+                        end
+            | None => false
+            end
+  | Err _ => false
+  end.
+Definition pre17 (s : tds) : bool :=
+  J_b s && has_table_b T_TABLES s && has_table_b T_COLUMNS s &&
+  forallb (fun c => has_fld (zs "type") c &&
+                    (if fld_is (fun t => py_eq t (VStr (zs "Image"))) (zs "type") c
+                     then col_named s c && has_fld (zs "isFormula") c &&
+                          (if fld_is val_truthy (zs "isFormula") c then true else col_data17 s c)
+                     else true)) (recs T_COLUMNS s).
+
 (* ---------- oracle tables and the check used by the generated cases ---------- *)
 Definition jnum_eqb (a b : jnum) : bool :=
   match a, b with
@@ -1442,6 +1488,7 @@ Definition pre_of (o : oracles) (v : Z) : tds -> bool :=
   else if Z.eqb v 4 then pre4 else if Z.eqb v 39 then pre39
   else if Z.eqb v 26 then pre26 else if Z.eqb v 30 then pre30 else if Z.eqb v 40 then pre40
   else if Z.eqb v 25 then pre25 else if Z.eqb v 28 then pre28
+  else if Z.eqb v 20 then pre20 else if Z.eqb v 3 then pre3 else if Z.eqb v 17 then pre17
   else fun _ => true.
 
 (* versions whose modelled body does not reproduce the recorded actions on the state it ran on (v), or whose
